@@ -165,13 +165,16 @@ def gen_program(rng, dom, max_units):
     n = rng.randint(1, max_units)
     units = rng.sample(range(0, 12), n)
     kinds = set()
+    diam = {}          # register -> diameter of the diagram it will hold (products/sums of diameters bound the cost of sum and modelcount)
 
     def leaf(us):
         r = new()
         if len(us) >= 1 and rng.random() < 0.35 and len(us) <= 3:
             ops.append({"op": "tree", "out": r, "units": us, "C": 2})
+            diam[r] = 2 ** (len(us) - 1)
         else:
             ops.append({"op": "chain", "out": r, "units": us, "C": 2})
+            diam[r] = 1
         return r
 
     def updates(r, us, k):
@@ -198,10 +201,12 @@ def gen_program(rng, dom, max_units):
                         src = base
                     # concat of a single element = a copy with its own registers
                     ops.append({"op": "concat", "out": r, "els": [src]})
+                    diam[r] = diam.get(src, 1)
                     updates(r, rest, rng.randint(0, 2))
                     els.append(r)
                 out = new()
                 ops.append({"op": "stack", "out": out, "factors": factors, "els": els})
+                diam[out] = sum(diam.get(e, 1) for e in els)
                 kinds.add("stack")
                 return out
             cut = rng.randint(1, len(us) - 1)
@@ -209,6 +214,7 @@ def gen_program(rng, dom, max_units):
             b = build(us[cut:], depth - 1)
             out = new()
             ops.append({"op": "concat", "out": out, "els": [a, b]})
+            diam[out] = max(diam.get(a, 1), diam.get(b, 1))
             kinds.add("concat")
             return out
         return leaf(us)
@@ -230,9 +236,12 @@ def gen_program(rng, dom, max_units):
             ops.append({"op": "evalall", "d": out})
             ops.append({"op": "modelcount", "d": out})
             checks.append(("restrict", cur, out, cur_units.index(u), v, len(cur_units)))
+            diam[out] = diam.get(cur, 1)
             kinds.add("restrict")
             cur, cur_units = out, [x for x in cur_units if x != u]
         else:
+            if diam.get(cur, 1) > 12:
+                continue                       # the product construction would square an already wide diagram
             if cur_units and len(cur_units) <= 4 and rng.random() < 0.5:
                 # a freshly built diagram of a DIFFERENT shape over the same variables (paired node indices then diverge in the product)
                 other = build(list(cur_units), 1)
@@ -240,13 +249,17 @@ def gen_program(rng, dom, max_units):
             else:
                 other = new()
                 ops.append({"op": "concat", "out": other, "els": [cur]})
+                diam[other] = diam.get(cur, 1)
                 updates(other, cur_units, rng.randint(1, 3)) if cur_units else None
+            if diam.get(cur, 1) * diam.get(other, 1) > 64:
+                continue
             out = new()
             ops.append({"op": "sum", "a": cur, "b": other, "out": out})
             ops.append({"op": "evalall", "d": other})
             ops.append({"op": "evalall", "d": out})
             ops.append({"op": "modelcount", "d": out})
             checks.append(("sum", cur, other, out))
+            diam[out] = diam.get(cur, 1) * diam.get(other, 1)
             kinds.add("sum")
             cur = out
     return ops, dict(units=units, kinds=sorted(kinds), checks=checks)
@@ -307,7 +320,7 @@ def run(ctx):
     doms = [{"box": [3]}, {"box": [2, 2]}, {"tally": [2, 1, 2]}, {"tally": [3, 2, 2]}, {"box": [6]}]
     for it in range(n_prog):
         dom = doms[it % len(doms)]
-        ops, meta = gen_program(rng, dom, 5 if q else 7)
+        ops, meta = gen_program(rng, dom, 5 if q else 6)
         case = dict(dom=dom, ops=ops)
         mach = Machine(I, dom)
         outs = [mach.step(op) for op in ops]
@@ -391,7 +404,7 @@ def run(ctx):
                     ctx.mismatch("model Ds.Dd disagrees with the implementation at step %d (%s); the implementation satisfies the pointwise relations" % (k, op["op"]),
                                  case, impl=o, model=mo, failing_input=False, broken="corr:Ds.Dd.%s / theorems C10_*" % op["op"], tag=tag)
                     break
-        if ctx.elapsed() > (110 if q else 900):
+        if ctx.elapsed() > (440 if q else 1800):
             break
     return ctx.finish("proof", "C10_*: evaluation = saturating path sum; restrict of a non-first variable = fixing it; sum = pointwise sum; modelcount = histogram; "
                       "value-domain monoid/subtraction/index laws - for every diagram, value type and operation sequence of the model. This run tied the model to the real "
